@@ -1,9 +1,12 @@
 import SamVerif.Props.C05
 /-! Axiom audit of every C05 property theorem (parsed by vlib/common.py). -/
-open SamVerif.Lexer SamVerif.ParserLoops
+open SamVerif.Lexer SamVerif.ParserLoops SamVerif.EntryPoint
 #print axioms scan_step_progress
 #print axioms rawLoop_fuel_irrelevant
 #print axioms scan_progress
 #print axioms scan_total
 #print axioms syntax_error_reported
 #print axioms parser_loops_progress
+#print axioms entry_root_closed
+#print axioms entry_needs_no_tparams
+#print axioms entry_needs_static
